@@ -29,7 +29,7 @@ PY = sys.executable
 
 def run_worker(hashseed: int, scenarios: List[str], outdir: str, counters=False, full: Optional[str] = None) -> dict:
     out = os.path.join(outdir, f"seed{hashseed}{'_full' if full else ''}{'_c' if counters else ''}_{'-'.join(scenarios)}.json")
-    env = dict(os.environ, PYTHONHASHSEED=str(hashseed), PYTHONPATH=VERIF, VERIF_REPO=REPO, _HIVEMC_REEXEC="1")
+    env = dict(os.environ, PYTHONHASHSEED=str(hashseed), PYTHONPATH=VERIF, VERIF_REPO=REPO, _HIVEMC_REEXEC="1", TZ=process_tz(hashseed))
     cmd = [PY, "-m", "hivemc.ord_worker", out, ",".join(scenarios)]
     if counters:
         cmd.append("--counters")
@@ -43,6 +43,15 @@ def run_worker(hashseed: int, scenarios: List[str], outdir: str, counters=False,
     os.remove(out)
     r["hashseed"] = hashseed
     return r
+
+
+# "whichever process runs it": besides the hash seed, processes differ in their local time zone (POSIX TZ strings, no tz
+# database needed); the zone is a function of the schedule's seed so that every finding replays
+TZS = ("UTC0", "JST-9", "MST7", "CET-1")
+
+
+def process_tz(hashseed: int) -> str:
+    return TZS[hashseed % len(TZS)]
 
 
 def first_divergence(a: dict, b: dict) -> Optional[Tuple[int, str]]:
@@ -130,7 +139,7 @@ def c01() -> int:
         need = {
             "S1": ["multi_fleet_vehicle_dispatched", "two_vehicles_reach_same_target_same_step"],
             "S2": ["plug_ranking_tied", "station_search_tied", "two_vehicles_reach_same_target_same_step", "competing_instructions_same_target_same_step", "plug_granted_among_tied_queuers"],
-            "S3": ["competing_instructions_same_target_same_step"],
+            "S3": ["competing_instructions_same_target_same_step", "reposition_with_demand_tied_between_cells"],
             "S2t": ["two_vehicles_reach_same_target_same_step", "queued_vehicles_share_enqueue_time"],
             "S4": ["plug_ranking_tied"],
         }
@@ -185,7 +194,7 @@ def c01() -> int:
                 Finding(
                     "C01",
                     ("diverges", sc),
-                    f"scenario {sc}: hash seed {s2} differs from hash seed {base} at step {step} ({kind}); {len(diverged[sc])} of {runs_done[sc]} seeds diverge, {len(outcomes[sc])} distinct simulations. {detail}",
+                    f"scenario {sc}: the process with hash seed {s2} (TZ={process_tz(s2)}) differs from the one with hash seed {base} (TZ={process_tz(base)}) at step {step} ({kind}); {len(diverged[sc])} of {runs_done[sc]} seeds diverge, {len(outcomes[sc])} distinct simulations. {detail}",
                     {"engine": "ord", "scenario": sc, "seeds": [base, s2], "step": step},
                 )
             )
